@@ -25,6 +25,9 @@ def model_line(c):
 def impl(c):
     import votelib.evaluate.condorcet as cd
     ev = {'cw': cd.CondorcetWinner, 'smith': cd.SmithSet, 'schwartz': cd.SchwartzSet}[c['kind']]()
+    if c.get('names') == 'ints0':
+        # candidates numbered from 0 (the first one is a falsy object); translated back before comparing
+        return ok([x + 1 for x in ev.evaluate({(a - 1, b - 1): n for (a, b), n in c['votes']})])
     return ok([common.cnum(x) for x in ev.evaluate(pw.pdict(c['votes']))])
 
 
@@ -76,7 +79,7 @@ def gen_random(rng, count):
             v = pw.dense(rng, m, tie_p=rng.choice([0, 0.2, 0.6]), scale=rng.choice([1, 1, 10 ** 25]))
         else:
             v = pw.forced_cw(rng, m)
-        yield from three(v)
+        yield from three(v, **({'names': 'ints0'} if rng.random() < 0.3 else {}))
 
 
 def corpus():
